@@ -20,6 +20,13 @@ class State:
         self.kinds = []            # kind of each point met
         self.bad_paths = set()
         self.injected = None
+        # path-based fault (deterministic under real pools, where every worker counts on its own):
+        # fail the `path_nth`-th point of kind `path_kind` on a path containing `path_substr`
+        self.path_substr = None
+        self.path_kind = None
+        self.path_nth = 1
+        self.path_seen = 0
+        self.log = []              # (kind, path) of every point met
 
 
 S = State()
@@ -28,6 +35,16 @@ S = State()
 def _point(kind, path):
     S.n += 1
     S.kinds.append(kind)
+    if len(S.log) < 20000:
+        S.log.append((kind, str(path)))
+    if S.path_substr is not None and kind == S.path_kind and S.path_substr in str(path):
+        S.path_seen += 1
+        if S.path_seen == S.path_nth:
+            S.injected = (kind, str(path))
+            S.bad_paths.add(str(path))
+            if kind == "write":
+                raise OSError(errno.ENOSPC, "No space left on device (injected)", str(path))
+            raise OSError(errno.EACCES, "Permission denied (injected)", str(path))
     if str(path) in S.bad_paths:
         raise OSError(errno.ENOSPC, "No space left on device (injected, sticky)", str(path))
     if S.fail_at == S.n:
